@@ -13,7 +13,8 @@ TStep ==
   /\ l' = l + 1
   /\ LET e == Trace[l]
      IN  /\ e.panic = ""
-         /\ ScriptOK(e.script, e.lhs, e.rhs)
+         /\ IF e.z = 1 THEN ScriptOKZ(e.script, e.lhs, e.rhs)   \* float64 elements with +0 / -0
+                        ELSE ScriptOK(e.script, e.lhs, e.rhs)
          /\ e.lhs2 = e.lhs /\ e.rhs2 = e.rhs          \* inputs not modified
 
 TSkip == l <= N /\ ~ENABLED TStep /\ Reject(l) /\ l' = l + 1
